@@ -84,7 +84,54 @@ func runC09Mesh2D(c *hlib.Ctx) {
 		res := hlib.Guard(func() string {
 			for i := 0; i < nops; i++ {
 				f := c.Rng.Intn(nt)
-				switch c.Rng.Intn(14) {
+				switch c.Rng.Intn(18) {
+				case 14, 15:
+					ord := c.Rng.Perm(nt)
+					pos := make([]int, nt)
+					for i, f := range ord {
+						pos[f] = i
+					}
+					script, tok := genIterScript(c, nt)
+					ops = append(ops, "its", seqTok(ord), tok)
+					var visited []int
+					cb := scriptedCallback(c, script, &visited,
+						func(f int) { m.Add(segs[f]) }, func(f int) { m.Remove(segs[f]) },
+						func(f int) bool { return m.Contains(segs[f]) })
+					m.IterateSorted(func(s *model2d.Segment) {
+						id, ok := faceID[s]
+						if !ok {
+							id = -1
+						}
+						cb(id)
+					}, func(a, b *model2d.Segment) bool { return pos[faceID[a]] < pos[faceID[b]] })
+					outs = append(outs, seqStr(visited))
+					c.Stat("c09.mesh2d_iterate_sorted_with_mutating_callback", 1)
+				case 16:
+					script, tok := genIterScript(c, nt)
+					var visited []int
+					cb := scriptedCallback(c, script, &visited,
+						func(f int) { m.Add(segs[f]) }, func(f int) { m.Remove(segs[f]) },
+						func(f int) bool { return m.Contains(segs[f]) })
+					m.Iterate(func(s *model2d.Segment) {
+						id, ok := faceID[s]
+						if !ok {
+							id = -1
+						}
+						cb(id)
+					})
+					ops = append(ops, "it", tok, seqTok(visited))
+					outs = append(outs, seqStr(visited))
+					c.Stat("c09.mesh2d_iterate_with_mutating_callback", 1)
+				case 17:
+					script, tok := genIterScript(c, nt)
+					var visited []int
+					cb := scriptedCallback(c, script, &visited,
+						func(f int) { m.Add(segs[f]) }, func(f int) { m.Remove(segs[f]) },
+						func(f int) bool { return m.Contains(segs[f]) })
+					m.IterateVertices(func(p model2d.Coord) { cb(idOf(p)) })
+					ops = append(ops, "itv", tok, seqTok(visited))
+					outs = append(outs, seqStr(visited))
+					c.Stat("c09.mesh2d_iterate_vertices_with_mutating_callback", 1)
 				case 0, 1, 2, 3:
 					ops = append(ops, "add", strconv.Itoa(f))
 					m.Add(segs[f])
